@@ -45,15 +45,33 @@ def run_property(pid: str, tier: str, repo: str | None = None, write=True, quiet
         else:
             unlisted.append(o)
     extra = {}
-    if tier == "thorough" and hasattr(mod, "thorough"):
-        extra = mod.thorough(ck) or {}
-        bad2 = [o for o in ck.obs if not o.ok and o not in bad]
-        for o in bad2:
-            k = match_known(o, known, pid)
-            if k is not None:
-                out.append(f"KNOWN-FINDING: property={pid} {k.get('what', o.detail)} [{o.rule} at {o.site}]")
-            else:
-                unlisted.append(o)
+    if tier == "thorough":
+        if hasattr(mod, "thorough"):
+            extra = mod.thorough(ck) or {}
+            bad2 = [o for o in ck.obs if not o.ok and o not in bad]
+            for o in bad2:
+                k = match_known(o, known, pid)
+                if k is not None:
+                    out.append(f"KNOWN-FINDING: property={pid} {k.get('what', o.detail)} [{o.rule} at {o.site}]")
+                else:
+                    unlisted.append(o)
+        if not os.environ.get("SV_NO_SELFTEST"):
+            from sv import selftest
+
+            rep = selftest.run(pid, prog.repo, [o.key for o in ck.obs if not o.ok])
+            extra["selftest"] = rep
+            extra["selftest_rule"] = (
+                "every committed breaking variant recorded for this property (/verif/seeded) must add a violation on a scratch copy of the "
+                "current tree; every other variant (other properties' breakages, benign refactors under /verif/benign) must add none"
+            )
+            out.append(
+                f"[sv] selftest {pid}: variants={rep['variants']} detected={len(rep['detected'])} missed={len(rep['missed'])} "
+                f"silent_ok={rep['silent_ok']} false_alarms={len(rep['false_alarms'])} skipped={len(rep['skipped'])} errors={len(rep['errors'])}"
+            )
+            for m_ in rep["missed"]:
+                out.append(f"SELFTEST-NOTE: breaking variant {m_} recorded for {pid} is not reported on this tree")
+            for fa in rep["false_alarms"]:
+                out.append(f"SELFTEST-NOTE: variant {fa['variant']} ({fa['kind']}) adds {fa['rules']} although it is not recorded as breaking {pid}")
     seed = int(os.environ.get("VERIF_SEED", "0") or 0)
     for o in unlisted:
         path = write_replay(ck, o) if write else "-"
